@@ -15,7 +15,7 @@ import (
 	"verif/harness/ev"
 )
 
-const rule = "cases = chains (1..12 steps, encoded size < 500 B by construction) over exactly the allocation-free method set (Str, Strs, Bytes, Hex, Bool(s), every Int/Uint width and slice variant, Float32/64(s), Time(s), Dur(s), TimeDiff, Timestamp, Err/AnErr of a plain error, Dict, Array, Object of a pointer marshaler, RawJSON, Type, Func; nested Dict/Array/Object from the same set) finalised by Msg or Send, on loggers {bare, with context, with timestamp hook, level-filtered, Nop}; all arguments created before the measured function; run in the JSON and the binary_log build. oracle = testing.AllocsPerRun(100, chain) == 0 and, for filtered loggers, nothing written. non-trivial = chain with >=3 distinct method families or a nested Dict/Array/Object; distinct = FNV-64 of (logger kind, step list)"
+const rule = "cases = chains (1..12 steps, encoded size < 500 B by construction) over exactly the allocation-free method set (Str, Strs, Bytes, Hex, Bool(s), every Int/Uint width and slice variant, Float32/64(s), Time(s), Dur(s), TimeDiff, Timestamp, Err/AnErr of a plain error, Dict, Array, Object of a pointer marshaler, RawJSON, Type, Func; nested Dict/Array/Object from the same set) finalised by Msg or Send, on loggers {bare, with context, with timestamp hook, level-filtered, Nop}; all arguments created before the measured function (slices of 0..3 and of 20 elements); global TimeFieldFormat (default, the four UNIX formats, two layouts), DurationFieldInteger/Unit and FloatingPointPrecision varied; run in the JSON and the binary_log build. oracle = testing.AllocsPerRun(100, chain) == 0 and, for filtered loggers, nothing written. non-trivial = chain with >=3 distinct method families or a nested Dict/Array/Object; distinct = FNV-64 of (logger kind, step list)"
 
 var rec = ev.New("C07", rule)
 
@@ -39,6 +39,11 @@ type Case struct {
 	// FailFirst: each measured run first emits an event through a logger whose writer returns an
 	// error (ErrorHandler set to a no-op), then the chain itself
 	FailFirst bool `json:"fail_first,omitempty"`
+	// global settings the typed field methods consult (documented knobs, not part of the chain)
+	TimeFmt   string `json:"time_format,omitempty"` // "" default | UNIX | UNIXMS | UNIXMICRO | UNIXNANO | a layout
+	DurInt    bool   `json:"dur_int,omitempty"`
+	DurUnit   int64  `json:"dur_unit,omitempty"`
+	FloatPrec *int   `json:"float_prec,omitempty"`
 }
 
 // values longer than 32 bytes that need escaping (a conversion to string/[]byte of such a value
@@ -79,7 +84,63 @@ var (
 	dursVals  = [][]time.Duration{nil, {}, {time.Second, 3}}
 )
 
-type objM struct{ steps []func(*zerolog.Event) *zerolog.Event }
+// every slice family also gets a 20-element value (scratch arrays sized for "typical" slices spill)
+func init() {
+	var ss []string
+	var bs []bool
+	var is []int
+	var i8 []int8
+	var i16 []int16
+	var i32 []int32
+	var i64 []int64
+	var us []uint
+	var u8 []uint8
+	var u16 []uint16
+	var u32 []uint32
+	var u64 []uint64
+	var fs32 []float32
+	var fs64 []float64
+	var ts []time.Time
+	var ds []time.Duration
+	for i := 0; i < 20; i++ {
+		ss = append(ss, "s")
+		bs = append(bs, i%2 == 0)
+		is = append(is, i*1000)
+		i8 = append(i8, int8(i))
+		i16 = append(i16, int16(i*100))
+		i32 = append(i32, int32(i*100000))
+		i64 = append(i64, int64(i)<<33)
+		us = append(us, uint(i)*7)
+		u8 = append(u8, uint8(i))
+		u16 = append(u16, uint16(i*300))
+		u32 = append(u32, uint32(i)<<20)
+		u64 = append(u64, uint64(i)<<40)
+		fs32 = append(fs32, float32(i)+0.5)
+		fs64 = append(fs64, float64(i)*1.25)
+		ts = append(ts, time.Unix(1700000000+int64(i), int64(i)*1001).UTC())
+		ds = append(ds, time.Duration(i)*time.Millisecond+7)
+	}
+	strsVals = append(strsVals, ss)
+	boolsVals = append(boolsVals, bs)
+	intsVals = append(intsVals, is)
+	ints8 = append(ints8, i8)
+	ints16 = append(ints16, i16)
+	ints32 = append(ints32, i32)
+	ints64 = append(ints64, i64)
+	uints = append(uints, us)
+	uints8 = append(uints8, u8)
+	uints16 = append(uints16, u16)
+	uints32 = append(uints32, u32)
+	uints64 = append(uints64, u64)
+	f32s = append(f32s, fs32)
+	f64s = append(f64s, fs64)
+	timesVals = append(timesVals, ts)
+	dursVals = append(dursVals, ds)
+}
+
+type objM struct {
+	steps []func(*zerolog.Event) *zerolog.Event
+}
 
 func (o *objM) MarshalZerologObject(e *zerolog.Event) {
 	for _, f := range o.steps {
@@ -330,6 +391,30 @@ func run(c *Case) (string, bool) {
 	default:
 		panic("logger kind")
 	}
+	oTF, oDI, oDU, oFP := zerolog.TimeFieldFormat, zerolog.DurationFieldInteger, zerolog.DurationFieldUnit, zerolog.FloatingPointPrecision
+	defer func() {
+		zerolog.TimeFieldFormat, zerolog.DurationFieldInteger, zerolog.DurationFieldUnit, zerolog.FloatingPointPrecision = oTF, oDI, oDU, oFP
+	}()
+	switch c.TimeFmt {
+	case "":
+	case "UNIX":
+		zerolog.TimeFieldFormat = zerolog.TimeFormatUnix
+	case "UNIXMS":
+		zerolog.TimeFieldFormat = zerolog.TimeFormatUnixMs
+	case "UNIXMICRO":
+		zerolog.TimeFieldFormat = zerolog.TimeFormatUnixMicro
+	case "UNIXNANO":
+		zerolog.TimeFieldFormat = zerolog.TimeFormatUnixNano
+	default:
+		zerolog.TimeFieldFormat = c.TimeFmt
+	}
+	zerolog.DurationFieldInteger = c.DurInt
+	if c.DurUnit > 0 {
+		zerolog.DurationFieldUnit = time.Duration(c.DurUnit)
+	}
+	if c.FloatPrec != nil {
+		zerolog.FloatingPointPrecision = *c.FloatPrec
+	}
 	steps := compile(c.Steps, 0)
 	fin := c.Fin
 	var bad zerolog.Logger
@@ -394,6 +479,8 @@ func fail(t interface{ Fatalf(string, ...interface{}) }, name string, c *Case, m
 	t.Fatalf("%s", msg)
 }
 
+var timeFmts = []string{"", "UNIX", "UNIXMS", "UNIXMICRO", "UNIXNANO", time.RFC3339Nano, time.RFC1123Z}
+
 var arrayFamilies = []string{"str", "int", "float64", "bool", "time", "dur", "bytes", "hex", "uint64", "err"}
 
 func genSteps(rt *rapid.T, depth, budget int, label string) []Step {
@@ -427,6 +514,15 @@ func TestRapidChains(t *testing.T) {
 			Fin: rapid.SampledFrom([]string{"msg", "send", "msgempty"}).Draw(rt, "fin"), Build: buildName()}
 		c.Steps = genSteps(rt, 0, 8, "s")
 		c.FailFirst = rapid.IntRange(0, 4).Draw(rt, "failfirst") == 0
+		if rapid.Bool().Draw(rt, "settings") {
+			c.TimeFmt = rapid.SampledFrom(timeFmts).Draw(rt, "timefmt")
+			c.DurInt = rapid.Bool().Draw(rt, "durint")
+			c.DurUnit = rapid.SampledFrom([]int64{0, 1, int64(time.Microsecond), int64(time.Second)}).Draw(rt, "durunit")
+			if rapid.Bool().Draw(rt, "fp") {
+				p := rapid.IntRange(0, 6).Draw(rt, "prec")
+				c.FloatPrec = &p
+			}
+		}
 		msg, nt := run(c)
 		b, _ := json.Marshal(c)
 		rec.Case(b, nt, "logger:"+c.Logger, "build:"+buildName())
@@ -463,6 +559,28 @@ func TestEachFamily(t *testing.T) {
 			}
 		}
 	}
+	// the time/duration/float families under every time format, integer durations, another unit, a precision
+	three := 3
+	for _, tf := range timeFmts {
+		for _, m := range []string{"time", "times", "timestamp", "timediff", "dur", "durs", "float32", "float64", "floats32", "floats64", "array"} {
+			for v := 0; v < 12; v++ {
+				c := &Case{Logger: "bare", Fin: "msg", Build: buildName(), Steps: []Step{{M: m, V: v}}, TimeFmt: tf, DurInt: v%2 == 0, DurUnit: []int64{0, 1, int64(time.Second)}[v%3]}
+				if v%4 == 1 {
+					c.FloatPrec = &three
+				}
+				if m == "array" {
+					c.Steps[0].Sub = []Step{{M: "time", V: v}, {M: "dur", V: v}, {M: "float64", V: v}}
+				}
+				if !hasFamily(m) {
+					continue
+				}
+				n++
+				if msg, _ := run(c); msg != "" {
+					fail(t, "family", c, m+" under settings: "+msg)
+				}
+			}
+		}
+	}
 	for _, lg := range []string{"bare", "ctx", "filtered"} {
 		c := &Case{Logger: lg, Fin: "msg", Build: buildName(), FailFirst: true, Steps: []Step{{M: "str", V: 1}, {M: "int", V: 2}}}
 		n++
@@ -472,6 +590,15 @@ func TestEachFamily(t *testing.T) {
 	}
 	rec.Bulk(n, n, "each-family:"+buildName())
 	rec.Exhaustive(fmt.Sprintf("every method family (%d) x 12 value selectors (incl. empty Dict/Array/Object/Func) x 6 logger kinds, %s build", len(families), buildName()))
+}
+
+func hasFamily(m string) bool {
+	for _, f := range families {
+		if f == m {
+			return true
+		}
+	}
+	return false
 }
 
 func TestReplay(t *testing.T) {
